@@ -37,7 +37,7 @@ SEMIRINGS = ["Float", "Float", "Boolean", "Real", "Log", "MaxPlus", "MaxTimes", 
 
 
 def plan(tier, seed):
-    return common.plan_shards(tier, seed, n_quick=60, n_thorough=400, budget_quick=35, budget_thorough=420, ties=True)
+    return common.add_m9_shard(common.plan_shards(tier, seed, n_quick=60, n_thorough=400, budget_quick=35, budget_thorough=420, ties=True), tier)
 
 
 def gates(tier):
@@ -185,4 +185,6 @@ def run_case(case, ctx):
 
 
 def run(spec, ctx):
+    if spec.get("m9"):
+        return common.run_m9(spec, ctx)
     common.loop(spec, ctx, gen_case, run_case)
